@@ -1,5 +1,6 @@
 /-
-  C11 — DeltaGraph: a collapse report is sound, and the operations never raise.
+  C11 — DeltaGraph: a reported collapse is sound, and insertion / fusion never raise.
+  Model: Mwp/Model/DeltaGraph.lean.  Proofs: Mwp/Lemmas/DeltaGraph{A,B,C,D}.lean.
 -/
 import Mwp.Lemmas.DeltaGraph
 namespace Mwp.Props.C11
@@ -17,12 +18,47 @@ theorem collapse_sound (ops : List Op) (g : Graph)
     ∀ v : Nat → Nat, (∀ j, v j < 3) → ∃ t ∈ inserted ops, matchesV t v :=
   collapse_sound_aux ops g hwf hrun hemp
 
-def ex1 : List Op := [.insert [(0,0)], .insert [(1,0)], .insert [(2,0)], .fuse]
-example : (∀ t ∈ inserted ex1, WFTuple t) := by
-  intro t ht
-  simp only [ex1, inserted, List.mem_cons, List.not_mem_nil, or_false] at ht
-  rcases ht with rfl | rfl | rfl <;> exact ⟨rfl, by decide⟩
-example : ∃ g, run ex1 = .ok g ∧ isEmpty g = true := ⟨_, rfl, rfl⟩
-#eval run ex1
-#print axioms collapse_sound
+/-- Non-vacuity: a history over two indices, with an intermediate fusion pass, that satisfies
+    all three hypotheses (well-formed, runs, collapses); the conclusion is then obtained from
+    the theorem. -/
+example :
+    let ops : List Op :=
+      [.insert [(0,0),(0,1)], .insert [(1,0),(0,1)], .insert [(2,0),(0,1)], .fuse,
+       .insert [(1,1)], .insert [(2,1)], .fuse]
+    (∀ t ∈ inserted ops, WFTuple t) ∧ (∃ g, run ops = .ok g ∧ isEmpty g = true) ∧
+      ∀ v : Nat → Nat, (∀ j, v j < 3) → ∃ t ∈ inserted ops, matchesV t v := by
+  intro ops
+  have hwf : ∀ t ∈ inserted ops, WFTuple t := by unfold WFTuple; decide
+  exact ⟨hwf, ⟨_, rfl, rfl⟩, collapse_sound ops _ hwf rfl rfl⟩
+
+/-- The conclusion is not trivially true: with one alternative missing at each index the run
+    succeeds, `isEmpty` answers `false`, and the vector `(2, 0, 0, …)` matches no inserted tuple. -/
+example :
+    let ops : List Op :=
+      [.insert [(0,0),(0,1)], .insert [(1,0),(0,1)], .fuse, .insert [(1,1)], .insert [(2,1)], .fuse]
+    (∃ g, run ops = .ok g ∧ isEmpty g = false) ∧
+      ¬ ∃ t ∈ inserted ops, matchesV t (fun j => if j = 0 then 2 else 0) := by
+  intro ops
+  refine ⟨⟨_, rfl, rfl⟩, ?_⟩
+  simp [ops, inserted, matchesV]
+
+/-- Insertions and fusion passes never raise, whatever was inserted or fused before.
+    (The proof does not use `hwf`: `Mwp.DG.run_total` shows it for arbitrary tuples.) -/
+theorem run_never_raises (ops : List Op) (hwf : ∀ t ∈ inserted ops, WFTuple t) :
+    ∃ g, run ops = .ok g :=
+  have _ := hwf
+  let ⟨g, hg, _⟩ := run_total ops
+  ⟨g, hg⟩
+
+/-- Non-vacuity: the history that made the original `fusion` raise `IndexError` (a second
+    fusion pass once the empty node `()` is present) is well-formed and runs to the collapsed
+    graph; the theorem applies to it. -/
+example :
+    let ops : List Op := [.insert [(0,0)], .insert [(1,0)], .insert [(2,0)], .fuse, .fuse]
+    (∀ t ∈ inserted ops, WFTuple t) ∧ run ops = .ok [(1, []), (0, [([], [])])] ∧
+      ∃ g, run ops = .ok g := by
+  intro ops
+  have hwf : ∀ t ∈ inserted ops, WFTuple t := by unfold WFTuple; decide
+  exact ⟨hwf, rfl, run_never_raises ops hwf⟩
+
 end Mwp.Props.C11
